@@ -196,7 +196,8 @@ class History:
 def subspace_pool(idm, rng):
     S = idm.IDSubspace
     b = rng.randrange(1, 254)
-    return [S(b, b + 1), S(b, b + 2), S(b, min(256, b + 3)), S(0, 2), S(0, 3), S(255, 256), S(0, 256), S(b, min(256, b + 40)), S(max(0, b - 1), b + 1)]
+    return [S(b, b + 1), S(b, b + 2), S(b, min(256, b + 3)), S(0, 2), S(0, 3), S(255, 256), S(0, 256), S(b, min(256, b + 40)), S(max(0, b - 1), b + 1),
+            S(b, min(256, b + 5)), S(b, min(256, b + 8)), S(0, 6)]
 
 
 def random_history(ctx, tup, idx, cov, large=False):
@@ -224,7 +225,7 @@ def random_history(ctx, tup, idx, cov, large=False):
                 sp = one_space or rng.choice(spaces)
                 pairs.append((sp, rng.choice(pool)))
         sizes = [p[0].subspace_size(p[1]) for p in pairs]
-        if not large and rng.random() < 0.3 and sizes[0] <= 1024:
+        if not large and rng.random() < 0.4 and sizes[0] <= 1024:
             # boundary: the configured per-subspace maximum equals the subspace size exactly
             h.max_ids = sizes[0]
             h.mgr.max_ids_per_subspace = sizes[0]
